@@ -355,3 +355,38 @@ func verifC13OpErr(s *badgerStore, k int, ids []store.NodeID, id store.NodeID, a
 	}
 	return nil
 }
+
+// VerifC13Storm: acknowledged means applied, however contended the key is. One
+// mutating operation whose transaction may hit up to n injected conflicts in a
+// row (writers the path does not contain): if the driver acknowledges it, what
+// is read back is exactly the effect of the operation; if it reports an error,
+// nothing changed.
+func VerifC13Storm() {
+	ids := []store.NodeID{store.NodeID(verifapi.NodeID(0)), store.NodeID(verifapi.NodeID(1))}
+	accts := []store.Account{store.Account(verifapi.Wallet(0)), store.Account(verifapi.Wallet(1))}
+	t0 := verifapi.Time("t0")
+	verifapi.SetNow(t0)
+	flags := []bool{true, true, true, false}
+	credits := []*big.Int{verifapi.BigInt("credit0"), big.NewInt(0)}
+	links := []int{verifapi.Choose("link0", 2), 0}
+	main, twin := verifOpen(), verifOpen()
+	verifC13Setup(main, ids, accts, t0, flags, credits, links, true)
+	verifC13Setup(twin, ids, accts, t0, flags, credits, links, true)
+	k := 1 + verifapi.Choose("op", 4)
+	id := ids[verifapi.Choose("id", 2)]
+	a := accts[verifapi.Choose("acct", 2)]
+	amount := verifapi.BigInt("amount")
+	pre := verifObserve(main, ids, accts)
+	terr := verifC13OpErr(twin, k, ids, id, a, amount)
+	post := verifObserve(twin, ids, accts)
+	verifapi.KVStorm(verifapi.Param("conflict_storm", 12))
+	err := verifC13OpErr(main, k, ids, id, a, amount)
+	verifapi.KVStorm(0)
+	verifapi.Reach("c13.storm")
+	got := verifObserve(&badgerStore{db: main.db, nonceExpire: main.nonceExpire}, ids, accts)
+	if err == nil {
+		verifapi.Assert(terr == nil && verifapi.Same(got, post), "c13.storm.acknowledged-operation-is-applied")
+	} else {
+		verifapi.Assert(verifapi.Same(got, pre), "c13.storm.refused-operation-changes-nothing")
+	}
+}
